@@ -209,6 +209,8 @@ def make_hooks(spec: dict):
         def hook(*a, **k):
             with open(os.path.join(ctl, "hooks.log"), "a") as f:
                 f.write(f"{name}\n")
+            with open(os.path.join(ctl, "hooks_pid.log"), "a") as f:
+                f.write(f"{os.getpid()} {name}\n")
             if mode == f"raise_{name}":
                 raise HookRaised(name)
 
